@@ -34,6 +34,20 @@ func Key(sigType int, seed uint64) refmodel.KeyPair {
 	return kp
 }
 
+// KeyShaped is Key for the degenerate encodings of refmodel.GenKeyShaped (cached).
+func KeyShaped(sigType int, seed uint64, shape int) refmodel.KeyPair {
+	if shape == 0 {
+		return Key(sigType, seed)
+	}
+	k := [3]uint64{uint64(sigType), seed, uint64(shape)}
+	if v, ok := keyCache.Load(k); ok {
+		return v.(refmodel.KeyPair)
+	}
+	kp := refmodel.GenKeyShaped(sigType, seed, shape)
+	keyCache.Store(k, kp)
+	return kp
+}
+
 // Fixed far-future instants so that no time-dependent validator interferes.
 const (
 	Published   = 1900000000 // 2030-03-17
@@ -82,7 +96,8 @@ func KAC(c *choose.Ctx, name string, role Role, seed uint64) (refmodel.KeysAndCe
 		null, sig, cr = true, 0, 0
 		extra = []byte{0xA1, 0xA2}
 	}
-	kp := Key(sig, seed)
+	// signing-key encodings with a zero first / last byte (real keys, found by search: the structures stay verifiable)
+	kp := KeyShaped(sig, seed, c.Pick(name+".sigkeyshape", 3))
 	cl := refmodel.CryptoTable[cr]
 	pl := 384 - cl - len(kp.Pub)
 	var pad []byte
